@@ -165,6 +165,35 @@ fn main() {
     let mut diverged = 0u64;
     let mut with_errors = 0u64;
     let mut samples = vec![];
+    // cases on which the compile-time builders failed: the run-time pipeline must fail as well
+    for f in cases::FAILED {
+        programs += 1;
+        let rt_ok = std::panic::catch_unwind(|| {
+            let Ok(grm) = YaccGrammar::<u32>::from_str(f.y) else { return false };
+            if lrtable::from_yacc(&grm, lrtable::Minimiser::Pager).is_err() {
+                return false;
+            }
+            let mut lf = lrlex::DEFAULT_LEX_FLAGS;
+            for (n, v) in f.lflags {
+                match *n {
+                    "case_insensitive" => lf.case_insensitive = Some(*v),
+                    "dot_matches_new_line" => lf.dot_matches_new_line = Some(*v),
+                    "multi_line" => lf.multi_line = Some(*v),
+                    "posix_escapes" => lf.posix_escapes = Some(*v),
+                    "swap_greed" => lf.swap_greed = Some(*v),
+                    "ignore_whitespace" => lf.ignore_whitespace = Some(*v),
+                    "unicode" => lf.unicode = Some(*v),
+                    "allow_wholeline_comments" => lf.allow_wholeline_comments = Some(*v),
+                    _ => {}
+                }
+            }
+            if f.lflags.is_empty() { LRNonStreamingLexerDef::<LT>::from_str(f.l).is_ok() } else { LRNonStreamingLexerDef::<LT>::new_with_options(f.l, lf).is_ok() }
+        })
+        .unwrap_or(false);
+        if rt_ok {
+            disagreements.push(json!({"case": f.name, "what": format!("the compile-time builders fail ({}) on sources the run-time pipeline accepts", f.err), "grammar": f.y, "lexer": f.l}));
+        }
+    }
     for c in cases::all() {
         programs += 1;
         // ---- run-time counterpart
